@@ -117,7 +117,14 @@ func runC02(seed int64, nconn, rounds int) string {
 	}
 	for i := 0; i < rounds; i++ {
 		time.Sleep(time.Duration(5+r.intn(25)) * time.Millisecond)
-		switch r.intn(6) {
+		switch r.intn(7) {
+		case 6:
+			// the layout rotates under the proxy's table - requests in flight are redirected, to nodes it may have no
+			// connection to - and at that moment the host list is replaced
+			rot := 1 + r.intn(2)
+			cl.setLayout([][3]int{{0, 5000, rot % 3}, {5001, 11000, (1 + rot) % 3}, {11001, 16383, (2 + rot) % 3}})
+			time.Sleep(time.Duration(r.intn(3)) * time.Millisecond)
+			sp.p.OnSvcAllHostReplace(hosts())
 		case 0:
 			cl.nodes[r.intn(n)].killConns()
 		case 1:
